@@ -338,6 +338,18 @@ class Binding(object):
         elif not headers:
             return content
         pts = self.headpart_types(method)
+
+        def add(pt, header):
+            # one element per item of a list-valued entry; a value the
+            # marshaller leaves out (None for an optional part) adds nothing
+            h = self.mkheader(method, pt, header)
+            ns = pt[1].namespace("ns0")
+            for node in (h if isinstance(h, list) else [h]):
+                if node is None:
+                    continue
+                node.setPrefix(ns[0], ns[1])
+                content.append(node)
+
         if isinstance(headers, (tuple, list)):
             n = 0
             for header in headers:
@@ -346,20 +358,14 @@ class Binding(object):
                     continue
                 if len(pts) == n:
                     break
-                h = self.mkheader(method, pts[n], header)
-                ns = pts[n][1].namespace("ns0")
-                h.setPrefix(ns[0], ns[1])
-                content.append(h)
+                add(pts[n], header)
                 n += 1
         else:
             for pt in pts:
                 header = headers.get(pt[0])
                 if header is None:
                     continue
-                h = self.mkheader(method, pt, header)
-                ns = pt[1].namespace("ns0")
-                h.setPrefix(ns[0], ns[1])
-                content.append(h)
+                add(pt, header)
         return content
 
     def replycontent(self, method, body):
